@@ -259,10 +259,14 @@ outer:
 			break
 		}
 
+		s.Lock()
+		ttl := s.ttl
+		s.Unlock()
+
 		// Move backtrace from body to header.
 		hops := 0
 		for {
-			if hops >= s.ttl {
+			if hops >= ttl {
 				m.Free() // ErrTooManyHops
 				continue outer
 			}
